@@ -67,6 +67,7 @@ class ParsedAnsiControlSequenceString:
             if s[i:i+len(ansi_control_sequence_introducer)] == ansi_control_sequence_introducer:
                 # This is the start of a Control Sequence Introducer command
                 i += len(ansi_control_sequence_introducer)
+                params_start = i
                 current_seq = ''
                 while i < len(s) and (ord(s[i]) < ansi_term_ord_range[0] or ord(s[i]) > ansi_term_ord_range[1]):
                     current_seq += s[i]
@@ -83,8 +84,10 @@ class ParsedAnsiControlSequenceString:
                     else:
                         self.sequences[idx] = [current_csi]
                 else:
-                    # Put it all back into string
-                    self._s += (ansi_control_sequence_introducer + current_seq + terminator)
+                    # Not a sequence to extract: keep the introducer as text and continue right after it, so that a
+                    # sequence which starts within the skipped characters is still found
+                    self._s += ansi_control_sequence_introducer
+                    i = params_start
             else:
                 self._s += s[i]
                 i += 1
